@@ -312,6 +312,96 @@ func staleWrites(c *Ctx, sel func(key string) bool) {
 			}
 		})
 	}
+	// check-then-act across critical sections: an update of a guarded container/field that is decided
+	// by a test of that same field made in an earlier critical section, and not repeated in this one
+	for _, fn := range p.Funcs {
+		if !p.InScope(fn) {
+			continue
+		}
+		fl := li.Fns[fn]
+		unlocks := map[string][]ssa.Instruction{}
+		for _, ci := range callsIn(fn) {
+			if call, ok := ci.(*ssa.Call); ok {
+				if op, ok := asLockOp(call); ok && !op.Acquire {
+					unlocks[op.Class] = append(unlocks[op.Class], call)
+				}
+			}
+		}
+		if len(unlocks) == 0 {
+			continue
+		}
+		instrsOf(fn, func(in ssa.Instruction) {
+			mu, ok := in.(*ssa.MapUpdate)
+			if !ok {
+				return
+			}
+			ld, isLoad := mu.Map.(*ssa.UnOp)
+			if !isLoad {
+				return
+			}
+			f, ok := LoadedField(ld)
+			if !ok {
+				return
+			}
+			k := f.Key()
+			class, guarded := tLock[k]
+			if !guarded || (sel != nil && !sel(k)) || len(unlocks[class]) == 0 || fr.IsFresh(f.Base, 0) {
+				return
+			}
+			if fl.Must[mu].HoldsClass(class) == 0 {
+				return // reported by guarded-by
+			}
+			if _, isConst := mu.Value.(*ssa.Const); isConst {
+				// resetting an entry to a constant (the passive failure counter) loses at most increments
+				// made in the gap; whether that matters depends on how "accumulate" is read, so it is not
+				// claimed.  The rule is about installing a new object over an entry another goroutine
+				// may have installed in the gap (the object and everything it holds become unreachable).
+				return
+			}
+			n++
+			// branches that decide whether this update runs
+			var stale, current []*ssa.UnOp
+			var staleAt ssa.Instruction
+			for _, b := range fn.Blocks {
+				ifi, isIf := b.Instrs[len(b.Instrs)-1].(*ssa.If)
+				if !isIf {
+					continue
+				}
+				controls := false
+				for _, sc := range b.Succs {
+					if len(sc.Preds) == 1 && sc.Dominates(mu.Block()) {
+						controls = true
+					}
+				}
+				if !controls {
+					continue
+				}
+				var loads []*ssa.UnOp
+				fieldLoads(ifi.Cond, 0, map[ssa.Value]bool{}, &loads)
+				for _, l := range loads {
+					lf, ok := fieldRefOf(l.X)
+					if !ok || lf.Key() != k || l.Parent() != fn {
+						continue
+					}
+					isStale := false
+					for _, u := range unlocks[class] {
+						if instrReaches(l, u) && instrReaches(u, mu) && !instrReaches(u, l) {
+							isStale = true
+							staleAt = u
+						}
+					}
+					if isStale {
+						stale = append(stale, l)
+					} else {
+						current = append(current, l)
+					}
+				}
+			}
+			if len(stale) > 0 && len(current) == 0 {
+				c.Fail("stale-write", p.FuncKey(fn)+"/"+k, p.InstrPos(mu), fmt.Sprintf("the update of %s under %s is decided by a test of it made at %s in an earlier critical section (the lock is released at %s in between) and the test is not repeated: two goroutines can both decide to insert and the second overwrites the first (lost entry)", k, class, p.InstrPos(stale[0]), p.InstrPos(staleAt)))
+			}
+		})
+	}
 	c.Count("guarded_stores_checked_for_staleness", n)
 }
 
